@@ -334,10 +334,36 @@ func specificAddrs(v ssa.Value) ([]string, bool) {
 		return nil, true
 	}
 	call, idx := core.CallOf(v)
-	if call == nil || idx != 0 || core.CalleeName(call) != "encoding/json.Marshal" {
+	if call == nil || idx != 0 {
 		return nil, false
 	}
-	arg := core.Strip(call.Call.Args[0])
+	var arg ssa.Value
+	if core.CalleeName(call) == "encoding/json.Marshal" {
+		arg = core.Strip(call.Call.Args[0])
+	} else if g := core.StaticCallee(call); g != nil && len(g.Blocks) > 0 {
+		// a module helper that marshals the list it is given: marshalSpecificAddrs(addrs ...string) = json.Marshal(addrs)
+		for _, ret := range core.Returns(g) {
+			if len(ret.Results) == 0 {
+				continue
+			}
+			for _, o := range core.RetOrigins(ret.Results[0]) {
+				mc, mi := core.CallOf(o.V)
+				if mc == nil || mi != 0 || core.CalleeName(mc) != "encoding/json.Marshal" {
+					continue
+				}
+				for pi, gp := range g.Params {
+					if core.Strip(mc.Call.Args[0]) == ssa.Value(gp) || core.Mentions(mc.Call.Args[0], func(x ssa.Value) bool { return x == ssa.Value(gp) }) {
+						if pi < len(call.Call.Args) {
+							arg = core.Strip(call.Call.Args[pi])
+						}
+					}
+				}
+			}
+		}
+	}
+	if arg == nil {
+		return nil, false
+	}
 	var out []string
 	ok := true
 	// the list may be produced by a parameterless helper that returns the literal
